@@ -7,7 +7,9 @@ package kcp
 // duplicate), and checked against the property: nothing is emitted before dataShards distinct
 // packets of the group have arrived; at that moment exactly the data packets not received so far
 // are emitted, byte for byte with their exact length; nothing that is not an original data
-// packet of the group is ever emitted.
+// packet of the group is ever emitted. Phase 2: ONE long-lived decoder receives three
+// consecutive groups in id order, for every combination of arrived subsets of the three groups
+// (state carried from group to group: caches, shard sets, newest-group tracking).
 // Bounds: quick (2,1) (2,2) (3,2); thorough adds (1,1) (1,2) (3,1) (4,1) (4,2) (5,1).
 
 import (
@@ -163,5 +165,74 @@ func TestVerifBounded(t *testing.T) {
 			}
 		}
 	}
-	fmt.Printf("BOUNDED-COVERAGE: fec k-of-n: %d configurations, %d decoder runs\n", len(cfgs), runs)
+	// phase 2: one decoder across consecutive groups
+	runs2 := 0
+	for _, c := range cfgs {
+		d, p := c[0], c[1]
+		n := d + p
+		if n > 5 {
+			continue
+		}
+		paws := 0xffffffff / uint32(n) * uint32(n)
+		groups := verifMakeGroups(d, p, paws-2*uint32(n), 3)
+		for m0 := 0; m0 < 1<<n; m0++ {
+			for m1 := 0; m1 < 1<<n; m1++ {
+				for m2 := 0; m2 < 1<<n; m2++ {
+					runs2++
+					dec := newFECDecoder(d, p)
+					for gi, mask := range []int{m0, m1, m2} {
+						grp := groups[gi]
+						got := map[int]bool{}
+						var rec [][]byte
+						for k := 0; k < n; k++ {
+							if mask&(1<<k) == 0 {
+								continue
+							}
+							got[k] = true
+							r := dec.decode(fecPacket(grp.pkts[k]))
+							if len(r) > 0 && len(got) < d {
+								t.Fatalf("BOUNDED-VIOLATION: (%d,%d) masks %b %b %b group %d: emitted before %d packets had arrived", d, p, m0, m1, m2, gi, d)
+							}
+							rec = append(rec, r...)
+						}
+						// everything emitted is an original data packet of this group (a late parity
+						// packet may make the decoder emit one again: harmless duplicates) ...
+						for _, r := range rec {
+							okr := false
+							if len(r) >= 2 {
+								sz := int(binary.LittleEndian.Uint16(r))
+								for i := 0; i < d; i++ {
+									if sz == len(grp.data[i]) && sz <= len(r) && bytes.Equal(r[:sz], grp.data[i]) {
+										okr = true
+									}
+								}
+							}
+							if !okr {
+								t.Fatalf("BOUNDED-VIOLATION: (%d,%d) one decoder, arrived masks %b %b %b: group %d: emitted a packet that is not an original data packet of the group", d, p, m0, m1, m2, gi)
+							}
+						}
+						// ... and every missing data packet is among them once dataShards arrived
+						if len(got) >= d {
+							for i := 0; i < d; i++ {
+								if got[i] {
+									continue
+								}
+								found := false
+								for _, r := range rec {
+									sz := int(binary.LittleEndian.Uint16(r))
+									if sz == len(grp.data[i]) && sz <= len(r) && bytes.Equal(r[:sz], grp.data[i]) {
+										found = true
+									}
+								}
+								if !found {
+									t.Fatalf("BOUNDED-VIOLATION: (%d,%d) one decoder, arrived masks %b %b %b: group %d: missing data packet %d was not reconstructed byte for byte", d, p, m0, m1, m2, gi, i)
+								}
+							}
+						}
+					}
+				}
+			}
+		}
+	}
+	fmt.Printf("BOUNDED-COVERAGE: fec k-of-n: %d configurations, %d fresh-decoder runs (all subsets x orders), %d long-lived-decoder runs (3 consecutive groups, all subset combinations)\n", len(cfgs), runs, runs2)
 }
